@@ -15,6 +15,7 @@ func init() {
 	register(&Property{
 		ID: "C14",
 		Explanation: "Decides in security/authenticator.go, client/auth_info.go and client/runtime.go: R14.1 the principal an authenticator returns is the application callback's (or nil), the error is the callback's, and the callback receives exactly r.BasicAuth()'s user and password, resp. the extracted token and the operation's required scopes; R14.2 'not applicable' (false, nil, nil) is returned exactly on the no-credential edge (ok == false / token == \"\") and every other exit applies; " +
+			"Round 12: R14.1 every exit behind the callback returns the callback's principal itself; R14.2 the basic callback is always asked. " +
 			"R14.3 bearer precedence: the Authorization header (prefix constant \"Bearer \") is read first, the access_token query parameter only when no token was found, the form body only when still none and only for the two form media types — the form read can never pre-empt the query read; R14.4 the context-aware and plain variants agree on the sequence of credential reads and constants; " +
 			"R14.5 the client writers use the same header constant as the server reads, base64.StdEncoding for user:password (what net/http's BasicAuth decodes), the \"Bearer \" prefix, and the given key name/location; R14.6 the transport-wide default credential is wrapped in only when the operation has no AuthInfo, and applied only when no Authorization header is set. " +
 			"R14.5 also: the snapshot of client-set query parameters in buildHTTP is taken after the auth writer ran. " +
